@@ -20,7 +20,20 @@ def sym_float(x):
     return float(x)
 
 
-EG = {'numqi.state._internal': {'float': sym_float}}
+def stub_relative_entropy(rho0, rho1, *a, **k):
+    """numqi.utils.get_relative_entropy by its contract (Klein's inequality): a value r >= 0 with r == 0 iff rho0 == rho1"""
+    if not (A.has_sym(rho0) or A.has_sym(rho1)):
+        return REAL_RELENT(rho0, rho1, *a, **k)
+    c = S.ctx()
+    r = c.fresh('relent')
+    same = ir.band_all(H.eq_sc(x, y) for x, y in zip(H.elems(rho0), H.elems(rho1)))
+    c.facts += [ir.rcmp('le', ir.ZERO, r), ir.beq(ir.rcmp('eq', r, ir.ZERO), same)]
+    c.notes.append('get_relative_entropy(rho,sigma): fresh r >= 0 with r == 0 iff rho == sigma (Klein inequality); its value is not modelled')
+    return SC(r)
+
+
+REAL_RELENT = numqi.utils.get_relative_entropy
+EG = {'numqi.state._internal': {'float': sym_float}, 'numqi.utils': {'get_relative_entropy': stub_relative_entropy}}
 
 
 def det_any(P):
@@ -143,6 +156,7 @@ def run(chk):
                      '(irrational float tables: not reliably liftable); load_upb; get_Wtype_state_GME; get_qubit_dicke_state_GME')
     chk.bound(d='2,3 (4 thorough) for Werner/Isotropic', parameter='symbolic over the whole documented range incl. both end points',
               psd='Hermitian + every principal minor of every diagonal block of the sparsity pattern >= 0 (exact criterion), blocks up to 4x4')
+    chk.stub('numqi.utils.get_relative_entropy -> fresh r >= 0 with r == 0 iff the two states are equal (only reached if a closed form leaves its zero branch)')
     chk.stub("module-level float() in numqi.state._internal passes symbolic scalars through (get_2qutrit_Antoine2022 calls float(q))")
     dims = (2, 3) if quick else (2, 3, 4)
     x = S.sc_var('x')
